@@ -218,3 +218,68 @@ Definition u_break_by_list (a : sx) : sx :=
       end
   | _ => bad_input
   end.
+
+(* ------------------------------------------------------------------ C05 / C06 *)
+From VL Require Import Model.Condorcet.
+
+Definition as_pvotes (s : sx) : option pvotes := as_dict (as_pair as_pos as_pos) as_Z s.
+Definition as_scorer (s : sx) : option scorer :=
+  match s with A 0 => Some WinningVotes | A 1 => Some Margins | A 2 => Some PairwiseOpposition | _ => None end.
+Definition of_cres (r : cres) : sx :=
+  match r with
+  | CR_ok l => ok (L (map of_res l))
+  | CR_vse => err E_VSE
+  | CR_nie => err E_NIE
+  | CR_stop => err 13      (* StopIteration *)
+  | CR_index => err E_INDEX
+  end.
+
+Definition u_condorcet_winner (a : sx) : sx :=
+  match as_pvotes a with Some v => ok (L (map of_pos (condorcet_winner v))) | None => bad_input end.
+(* args: (ties votes) *)
+Definition u_smith_schwartz (a : sx) : sx :=
+  match a with
+  | L [t; v] => match as_bool t, as_pvotes v with
+                | Some t, Some v => ok (L (map of_pos (smith_schwartz v t)))
+                | _, _ => bad_input end
+  | _ => bad_input
+  end.
+(* args: (second_order votes n) *)
+Definition u_copeland (a : sx) : sx :=
+  match a with
+  | L [so; v; n] => match as_bool so, as_pvotes v, as_nat n with
+                    | Some so, Some v, Some n => ok (L (map of_res (copeland so v n)))
+                    | _, _, _ => bad_input end
+  | _ => bad_input
+  end.
+(* args: (votes order n) *)
+Definition u_schulze (a : sx) : sx :=
+  match a with
+  | L [v; o; n] => match as_pvotes v, as_listof as_pos o, as_nat n with
+                   | Some v, Some o, Some n => ok (L (map of_res (schulze v o n)))
+                   | _, _, _ => bad_input end
+  | _ => bad_input
+  end.
+(* args: (scorer votes n) *)
+Definition u_minimax (a : sx) : sx :=
+  match a with
+  | L [s; v; n] => match as_scorer s, as_pvotes v, as_nat n with
+                   | Some s, Some v, Some n => ok (L (map of_res (minimax s v n)))
+                   | _, _, _ => bad_input end
+  | _ => bad_input
+  end.
+Definition u_ranked_pairs (a : sx) : sx :=
+  match a with
+  | L [s; v; n] => match as_scorer s, as_pvotes v, as_nat n with
+                   | Some s, Some v, Some n => of_cres (ranked_pairs s v n)
+                   | _, _, _ => bad_input end
+  | _ => bad_input
+  end.
+(* args: (votes n) *)
+Definition u_kemeny (a : sx) : sx :=
+  match a with
+  | L [v; n] => match as_pvotes v, as_nat n with
+                | Some v, Some n => of_cres (kemeny v n)
+                | _, _ => bad_input end
+  | _ => bad_input
+  end.
